@@ -3,7 +3,10 @@
    - a list with exactly one member is an open list (array) of that member;
    - any other list is a fixed list (record) whose members are reached by key:
        a data item by its own name; a nested list by the name given after L; an unnamed open list of a
-       single data item by that data item's name; any other unnamed nested list by "DATA". *)
+       single data item by that data item's name; any other unnamed nested list by "DATA".
+   The documentation does not say which key an UNNAMED open list gets whose single member is a NAMED list
+   (the name belongs to the member, which is reached by index, not by key): such definitions are outside
+   the domain of the shape statement (naming_supported). *)
 From SG Require Import Base.Prelude.
 
 Inductive sast := AItem (name : string) | AList (name : option string) (members : list sast).
@@ -14,7 +17,6 @@ Definition doc_key (m : sast) : string :=
   | AItem n => n
   | AList (Some nm) _ => nm
   | AList None [AItem n] => n                  (* documented: the nested data item's name *)
-  | AList None [AList (Some nm) _] => nm       (* same rule for a nested element that carries a name *)
   | AList None _ => "DATA"%string
   end.
 
@@ -42,7 +44,7 @@ Fixpoint keys_distinct (a : sast) : bool :=
 Fixpoint naming_supported (a : sast) : bool :=
   match a with
   | AItem _ => true
-  | AList None ms => forallb naming_supported ms
+  | AList None ms => forallb naming_supported ms && match ms with [AList (Some _) _] => false | _ => true end
   | AList (Some _) ms =>
     forallb naming_supported ms &&
     match ms with
